@@ -205,6 +205,21 @@ Theorem C01_glr_model_valid_full :
 Proof. exact glr_full_tok_sound. Qed.
 Print Assumptions C01_glr_model_valid_full.
 
+(* No internal failure of the driver (the GLR counterpart of C10_lr_no_crash): with a table
+   passing table_struct and table_progress the model never ends in GLRCrash -- no head without
+   lookahead reaches _actor, every production reduced exists and has its goto, every state
+   revisited is an active head, an accepted head has a link for Forest.__init__ -- for all
+   scanners, inputs, positions, fuel; the modelled CPython set order meets the side condition
+   (it only yields members of the set: Proofs/PySetProofs.v). *)
+From PV Require Import Validators.TableProgress Proofs.GLRNoCrash.
+Theorem C01_glr_model_no_crash :
+  forall (c : pconf) (inp : pinput) (fuel : nat) (pos start : N) (code : N),
+    table_struct (pc_g c) (pc_tb c) start = true ->
+    table_progress (pc_g c) (pc_tb c) (pc_stop c) = true ->
+    glr_parse_full c inp fuel pos <> GLRCrash code.
+Proof. exact glr_full_no_crash. Qed.
+Print Assumptions C01_glr_model_no_crash.
+
 (* non-vacuity of C01_glr_model_sound: E: E '+' E | 'n' on "n+n+n" -- the table passes
    table_struct and the model returns a forest of 12 links whose root has two alternatives *)
 Example C01_glr_model_nonvacuous :
@@ -216,5 +231,6 @@ Example C01_glr_model_nonvacuous :
 Proof. exact ok_bool. Qed.
 
 (* ... and of C01_glr_model_valid_full: the same run meets glr_tok_checks *)
-Example C01_glr_model_valid_nonvacuous : glr_tok_checks ok_conf ok_inp = true.
-Proof. vm_compute. reflexivity. Qed.
+Example C01_glr_model_valid_nonvacuous :
+  glr_tok_checks ok_conf ok_inp = true /\ table_progress ok_g ok_tb (pc_stop ok_conf) = true.
+Proof. vm_compute. split; reflexivity. Qed.
